@@ -231,7 +231,11 @@ class World(Sim):
                         gref = ('abs', existing_groups[abs(g) % len(existing_groups)])
                     parents = set()
                     for p in j.get('parents', []):
-                        if p < 0 and k > 0 and j.get('legacy'):
+                        if isinstance(p, str):
+                            # 'L<n>': the n-th most recently reserved job of the batch (before this update)
+                            if existing_jobs:
+                                parents.add(('abs', existing_jobs[-min(int(p[1:]), len(existing_jobs))]))
+                        elif p < 0 and k > 0 and j.get('legacy'):
                             # the legacy `parent_ids` form: a parent in the same update named by its absolute id
                             parents.add(('abs', sj + ((-p - 1) % k)))
                         elif p < 0 and k > 0:
